@@ -18,7 +18,7 @@ var watchdogOnce sync.Once
 
 const memLimitBytes = 6 << 30
 const memHardLimitBytes = 10 << 30
-const unitTimeLimit = 240 * time.Second
+const unitTimeLimit = 420 * time.Second
 
 // hardAbort is installed by the property runner: it reports the unit being processed as
 // undecidable within the verifier's resources (a VIOLATION line with a replay file) and
@@ -29,7 +29,7 @@ var hardAbort func(reason string)
 // unitStarted is when the generation of the current unit began (zero: not generating).
 var unitStarted atomic.Int64
 
-const unitHardTimeLimit = 360 * time.Second
+const unitHardTimeLimit = 600 * time.Second
 
 func startWatchdog() {
 	watchdogOnce.Do(func() {
